@@ -53,58 +53,13 @@ func c10resetAs(c *core.Ctx, R string) {
 			vobj := pk.TypesInfo.ObjectOf(v)
 			tname := core.Rel(named.String())
 			// next statement must be the defer
-			var resetFn *types.Func
-			okDefer := false
-			why := "the statement after pool.Get is not a defer"
-			if i+1 < len(list) {
-				if ds, ok := list[i+1].(*ast.DeferStmt); ok {
-					why = "the deferred function does not call a reset method of the value and then Put"
-					// the deferred work: a literal, or a named helper of the package that gets the value
-					analyse := func(apk *packages.Package, stmts []ast.Stmt, obj types.Object) {
-						sawPut := false
-						for _, s2 := range stmts {
-							es, ok := s2.(*ast.ExprStmt)
-							if !ok {
-								continue
-							}
-							call, ok := es.X.(*ast.CallExpr)
-							if !ok {
-								continue
-							}
-							if se, ok := call.Fun.(*ast.SelectorExpr); ok {
-								if id, ok := se.X.(*ast.Ident); ok && apk.TypesInfo.ObjectOf(id) == obj && !sawPut {
-									if f, ok := core.Callee(apk, call).(*types.Func); ok {
-										resetFn = f
-									}
-								}
-							}
-							if strings.HasSuffix(core.FullName(core.Callee(apk, call)), "Pool).Put") && len(call.Args) == 1 {
-								if id, ok := call.Args[0].(*ast.Ident); ok && apk.TypesInfo.ObjectOf(id) == obj {
-									sawPut = true
-								}
-							}
-						}
-						okDefer = resetFn != nil && sawPut
-					}
-					if fl, ok := ds.Call.Fun.(*ast.FuncLit); ok {
-						analyse(pk, fl.Body.List, vobj)
-					} else if hf, ok := core.Callee(pk, ds.Call).(*types.Func); ok {
-						if hd := c.P.FindDecl(core.Rel(hf.FullName())); hd != nil && hd.Decl.Body != nil {
-							for ai, a := range ds.Call.Args {
-								if id, ok := a.(*ast.Ident); ok && pk.TypesInfo.ObjectOf(id) == vobj {
-									// the parameter that receives the value
-									k := 0
-									for _, f := range hd.Decl.Type.Params.List {
-										for _, nm := range f.Names {
-											if k == ai {
-												analyse(hd.Pkg, hd.Decl.Body.List, hd.Pkg.TypesInfo.ObjectOf(nm))
-											}
-											k++
-										}
-									}
-								}
-							}
-						}
+			okDefer, resetFn, why := deferResetPut(c, pk, list, i, vobj)
+			if !okDefer && i+1 < len(list) {
+				// a wrapper that only prepares the pooled value and returns it: the obligation moves
+				// to its callers (`x := wrapper(...)` directly followed by the defer)
+				if _, isDefer := list[i+1].(*ast.DeferStmt); !isDefer {
+					if ok2, fn2, why2, handled := wrapperCallers(c, d, list, i, vobj); handled {
+						okDefer, resetFn, why = ok2, fn2, why2
 					}
 				}
 			}
@@ -250,4 +205,150 @@ var globalTable = map[string]string{
 	"openapi/internal.BufferPool":                  "pool of buffers; see exampleBufferPool",
 	"notations/jschema/ischema.virtualAnyNode":     "lazily built singleton guarded by virtualAnyNodeOnce (sync.Once); users only read it (rule C11.ro)",
 	"notations/jschema/ischema.virtualAnyNodeOnce": "sync.Once guarding virtualAnyNode",
+}
+
+// deferResetPut: list[i] binds the pooled value vobj; is list[i+1] a defer that resets it and puts it back?
+// The deferred work may be a literal, a method of the value, or a helper of the package that gets the value.
+func deferResetPut(c *core.Ctx, pk *packages.Package, list []ast.Stmt, i int, vobj types.Object) (bool, *types.Func, string) {
+	var resetFn *types.Func
+	okDefer := false
+	why := "the statement after pool.Get is not a defer"
+	if i+1 >= len(list) {
+		return false, nil, why
+	}
+	ds, ok := list[i+1].(*ast.DeferStmt)
+	if !ok {
+		return false, nil, why
+	}
+	why = "the deferred function does not call a reset method of the value and then Put"
+	analyse := func(apk *packages.Package, stmts []ast.Stmt, obj types.Object) {
+		sawPut := false
+		for _, s2 := range stmts {
+			es, ok := s2.(*ast.ExprStmt)
+			if !ok {
+				continue
+			}
+			call, ok := es.X.(*ast.CallExpr)
+			if !ok {
+				continue
+			}
+			if se, ok := call.Fun.(*ast.SelectorExpr); ok {
+				if id, ok := se.X.(*ast.Ident); ok && apk.TypesInfo.ObjectOf(id) == obj && !sawPut {
+					if f, ok := core.Callee(apk, call).(*types.Func); ok {
+						resetFn = f
+					}
+				}
+			}
+			if strings.HasSuffix(core.FullName(core.Callee(apk, call)), "Pool).Put") && len(call.Args) == 1 {
+				if id, ok := call.Args[0].(*ast.Ident); ok && apk.TypesInfo.ObjectOf(id) == obj {
+					sawPut = true
+				}
+			}
+		}
+		okDefer = resetFn != nil && sawPut
+	}
+	if fl, ok := ds.Call.Fun.(*ast.FuncLit); ok {
+		analyse(pk, fl.Body.List, vobj)
+	} else if hf, ok := core.Callee(pk, ds.Call).(*types.Func); ok {
+		if hd := c.P.FindDecl(core.Rel(hf.FullName())); hd != nil && hd.Decl.Body != nil {
+			// a method of the value: `defer v.release()`
+			if se, ok := ds.Call.Fun.(*ast.SelectorExpr); ok {
+				if id, ok := se.X.(*ast.Ident); ok && pk.TypesInfo.ObjectOf(id) == vobj && hd.Decl.Recv != nil && len(hd.Decl.Recv.List) == 1 && len(hd.Decl.Recv.List[0].Names) == 1 {
+					analyse(hd.Pkg, hd.Decl.Body.List, hd.Pkg.TypesInfo.ObjectOf(hd.Decl.Recv.List[0].Names[0]))
+				}
+			}
+			for ai, a := range ds.Call.Args {
+				if id, ok := a.(*ast.Ident); ok && pk.TypesInfo.ObjectOf(id) == vobj {
+					k := 0
+					for _, f := range hd.Decl.Type.Params.List {
+						for _, nm := range f.Names {
+							if k == ai {
+								analyse(hd.Pkg, hd.Decl.Body.List, hd.Pkg.TypesInfo.ObjectOf(nm))
+							}
+							k++
+						}
+					}
+				}
+			}
+		}
+	}
+	return okDefer, resetFn, why
+}
+
+// wrapperCallers: the function takes the value from the pool, only assigns to it, and returns it.
+func wrapperCallers(c *core.Ctx, d core.DeclSite, list []ast.Stmt, i int, vobj types.Object) (ok bool, resetFn *types.Func, why string, handled bool) {
+	if len(list) == 0 {
+		return
+	}
+	ret, isRet := list[len(list)-1].(*ast.ReturnStmt)
+	if !isRet || len(ret.Results) != 1 {
+		return
+	}
+	if id, isID := ret.Results[0].(*ast.Ident); !isID || d.Pkg.TypesInfo.ObjectOf(id) != vobj {
+		return
+	}
+	var onlyAssign func(sts []ast.Stmt) bool
+	onlyAssign = func(sts []ast.Stmt) bool {
+		for _, st := range sts {
+			switch x := st.(type) {
+			case *ast.AssignStmt, *ast.IncDecStmt:
+			case *ast.IfStmt:
+				if !onlyAssign(x.Body.List) {
+					return false
+				}
+				if eb, ok := x.Else.(*ast.BlockStmt); ok && !onlyAssign(eb.List) {
+					return false
+				}
+			default:
+				return false
+			}
+		}
+		return true
+	}
+	if !onlyAssign(list[i+1 : len(list)-1]) {
+		return
+	}
+	self, _ := d.Pkg.TypesInfo.Defs[d.Decl.Name].(*types.Func)
+	if self == nil || self.Exported() {
+		return
+	}
+	handled = true
+	ok = true
+	sites := 0
+	for _, d2 := range c.P.FuncDecls() {
+		if d2.Pkg != d.Pkg || d2.Decl.Body == nil {
+			continue
+		}
+		l2 := d2.Decl.Body.List
+		ast.Inspect(d2.Decl.Body, func(n ast.Node) bool {
+			call, isCall := n.(*ast.CallExpr)
+			if !isCall || core.Callee(d2.Pkg, call) != types.Object(self) {
+				return true
+			}
+			sites++
+			// must be `x := wrapper(...)` as a top-level statement
+			found := false
+			for k, st := range l2 {
+				if as, isAs := st.(*ast.AssignStmt); isAs && len(as.Lhs) == 1 && len(as.Rhs) == 1 && ast.Unparen(as.Rhs[0]) == ast.Expr(call) {
+					if xid, isID := as.Lhs[0].(*ast.Ident); isID {
+						ok3, fn3, why3 := deferResetPut(c, d2.Pkg, l2, k, d2.Pkg.TypesInfo.ObjectOf(xid))
+						found = true
+						if ok3 {
+							resetFn = fn3
+						} else {
+							ok, why = false, "caller "+core.DeclName(d2.Pkg, d2.Decl)+": "+why3
+						}
+					}
+				}
+			}
+			if !found {
+				ok, why = false, "caller "+core.DeclName(d2.Pkg, d2.Decl)+" does not bind the pooled value to a variable followed by the defer"
+			}
+			return true
+		})
+	}
+	if sites == 0 {
+		ok, why = false, "pool wrapper without callers"
+	}
+	return
 }
